@@ -388,9 +388,110 @@ pub fn run(tier: Tier, seed: u64) -> i32 {
             }
         }
     }
+    // plaintext-targeted headers: the peer chooses the PLAINTEXT (it knows the keystream), so sweep the
+    // decrypted header bytes, not the ciphertext: every first byte x alphabets for the others, all entry points
+    let vals: [u8; 8] = [0x00, 0x01, 0x03, 0x04, 0x7F, 0x80, 0xFE, 0xFF];
+    let targeted = AtomicU64::new(0);
+    (0..=255u8).into_par_iter().for_each(|p0| {
+        let mut n = 0u64;
+        for &p1 in &vals {
+            for &p2 in &vals {
+                for &p3 in &[0x00u8, 0x80, 0xFF] {
+                    for &p4 in &[0x00u8, 0x7F, 0xFF] {
+                        let plain = [p0, p1, p2, p3, p4, p2];
+                        // Wrath client: server -> client stream
+                        let mut wire = plain;
+                        refmodel::cipher::wrath_stream(&key, refmodel::cipher::Dir::ServerToClient).apply(&mut wire);
+                        let (_, mut d1) = ciphers::wrath_client(&key).split();
+                        let mut d2 = d1.clone();
+                        let mut c3 = ciphers::wrath_client(&key);
+                        let r1 = catch(|| match d1.attempt_decrypt_server_header([wire[0], wire[1], wire[2], wire[3]]) {
+                            wow_srp::wrath_header::WrathServerAttempt::AdditionalByteRequired => {
+                                let _ = d1.decrypt_large_server_header(wire[4]);
+                            }
+                            wow_srp::wrath_header::WrathServerAttempt::Header(_) => {}
+                        });
+                        let r2 = catch(|| {
+                            let _ = d2.read_and_decrypt_server_header(Cursor::new(&wire[..]));
+                        });
+                        let r3 = catch(|| {
+                            let _ = c3.read_and_decrypt_server_header(Cursor::new(&wire[..]));
+                        });
+                        // Wrath server: client -> server stream, 6-byte client header
+                        let mut wire_c = plain;
+                        refmodel::cipher::wrath_stream(&key, refmodel::cipher::Dir::ClientToServer).apply(&mut wire_c);
+                        let mut ws = ciphers::wrath_server(&key);
+                        let r4 = catch(|| {
+                            let _ = ws.decrypt_client_header(wire_c);
+                            let _ = ws.read_and_decrypt_client_header(Cursor::new(&wire_c[..]));
+                        });
+                        // Vanilla / TBC: both header kinds with this plaintext
+                        let mut wv = plain;
+                        refmodel::cipher::Recurrence::vanilla(&key).enc(&mut wv);
+                        let mut v = ciphers::vanilla(&key);
+                        let r5 = catch(|| {
+                            let _ = v.clone().decrypt_server_header([wv[0], wv[1], wv[2], wv[3]]);
+                            let _ = v.clone().read_and_decrypt_server_header(Cursor::new(&wv[..]));
+                            let _ = v.clone().read_and_decrypt_client_header(Cursor::new(&wv[..]));
+                            let _ = v.decrypt_client_header(wv);
+                        });
+                        let mut wt = plain;
+                        refmodel::cipher::Recurrence::tbc(&key).enc(&mut wt);
+                        let mut t = ciphers::tbc(&key);
+                        let r6 = catch(|| {
+                            let _ = t.clone().decrypt_server_header([wt[0], wt[1], wt[2], wt[3]]);
+                            let _ = t.clone().read_and_decrypt_server_header(Cursor::new(&wt[..]));
+                            let _ = t.clone().read_and_decrypt_client_header(Cursor::new(&wt[..]));
+                            let _ = t.decrypt_client_header(wt);
+                        });
+                        for (name, r) in [("wrath client two-step", r1), ("wrath client half read", r2), ("wrath client combined read", r3), ("wrath server client-header", r4), ("vanilla", r5), ("tbc", r6)] {
+                            if let Err(m) = r {
+                                viol(&report, "header", "decrypter-panic-on-chosen-plaintext", json!({"entry": name, "decrypted_header_bytes": hex(&plain), "session_key": hex(&key)}), format!("{name} panicked on a header whose plaintext is {}: {m}", hex(&plain)));
+                            }
+                        }
+                        n += 6;
+                    }
+                }
+            }
+        }
+        targeted.fetch_add(n, Ordering::Relaxed);
+    });
+    hdr_calls += targeted.load(Ordering::Relaxed);
+    report.count("header_plaintext_targeted_calls", targeted.load(Ordering::Relaxed));
+
+    // every shape of S (low/high zero bytes) on both sides through the internal seam: no conversion may crash
+    let mut shape_calls = 0u64;
+    let nn = srp::n_builtin();
+    for low in 0..32usize {
+        for high in 0..(32 - low) {
+            let mut sv = [0x01u8; 32];
+            for b in sv.iter_mut().take(low) {
+                *b = 0;
+            }
+            for b in sv.iter_mut().skip(32 - high) {
+                *b = 0;
+            }
+            let t = U::from_le_bytes(&sv);
+            // server: b = 1, A = T * (v^u)^-1 ; client: a = 1, u = 0, B = T + k*g^x
+            let v = U::from_le_bytes(&refmodel::ctr_array::<32>(seed, "c14-sv")).rem(&nn);
+            let u = refmodel::ctr_array::<20>(seed, "c14-su");
+            let a_pub = t.mulmod(&v.modpow(&U::from_le_bytes(&u), &nn).inv_prime(&nn), &nn).to_le_padded::<32>();
+            let x = refmodel::ctr_array::<20>(seed, "c14-sx");
+            let b_pub = t.add(&U::from_u64(3).mul(&U::from_u64(7).modpow(&U::from_le_bytes(&x), &nn))).rem(&nn).to_le_padded::<32>();
+            let r1 = catch(|| verif_hooks::server_s(a_pub, v.to_le_padded::<32>(), u, le32_from_u64(1)));
+            let r2 = catch(|| verif_hooks::client_s(b_pub, x, le32_from_u64(1), [0u8; 20], 7, N_LE));
+            shape_calls += 2;
+            for (side, r) in [("server", r1.map(|_| ())), ("client", r2.map(|_| ()))] {
+                if let Err(m) = r {
+                    viol(&report, "seam", &format!("{side}-S-conversion-panic"), json!({"S_target_le": hex(&sv), "low_zero_bytes": low, "high_zero_bytes": high, "A": hex(&a_pub), "B": hex(&b_pub)}), format!("{side} S computation panicked when the secret has {high} high-order and {low} low-order zero bytes: {m}"));
+                }
+            }
+        }
+    }
+    report.count("seam_S_shape_calls", shape_calls);
     report.count("header_calls", hdr_calls);
 
-    let total = calls.load(Ordering::Relaxed) + ccalls.load(Ordering::Relaxed) + seam + world + hdr_calls + r.transitions;
+    let total = calls.load(Ordering::Relaxed) + ccalls.load(Ordering::Relaxed) + seam + shape_calls + world + hdr_calls + r.transitions;
     report.count("server_accepted", accepted.load(Ordering::Relaxed));
     report.count("server_refused", refused.load(Ordering::Relaxed));
     report.set("evaluations", json!(total));
